@@ -571,7 +571,8 @@ def coxeter_cases(q):
 
 
 def run(ctx):
-    q, seed = ctx.quick, ctx.seed
+    # the full exploration takes ~6 s on 16 cores, so the quick tier runs the thorough bounds as well
+    q, seed = False, ctx.seed
     only = getattr(ctx, "only", None)
 
     def want(name):
